@@ -17,6 +17,7 @@ package main
 import (
 	"fmt"
 	"io"
+	"sort"
 	"strings"
 
 	"github.com/openconfig/goyang/pkg/indent"
@@ -47,8 +48,17 @@ func doTypes(w io.Writer, entries []*yang.Entry) {
 		types.AddEntry(e)
 	}
 
+	// Render every type and print the renderings in sorted order, so that the
+	// output does not depend on map iteration order.
+	var rendered []string
 	for t := range types {
-		printType(w, t, typesVerbose)
+		var b strings.Builder
+		printType(&b, t, typesVerbose)
+		rendered = append(rendered, b.String())
+	}
+	sort.Strings(rendered)
+	for _, r := range rendered {
+		io.WriteString(w, r)
 	}
 	if typesDebug {
 		for _, e := range entries {
